@@ -89,9 +89,10 @@ def taint_from(fn, seeds, through_bin=False):
     return t, via_collection
 
 
-def move_chain(f, start):
-    """Locals a value passes through by plain moves (let-bindings, argument passing into inlined helpers), and
-    every other use of any of them: (aliases, [(site, how, local)])."""
+def move_chain(f, start, _depth=0):
+    """Locals a value passes through by plain moves (let-bindings, argument passing into inlined helpers, a trip
+    through a field of a tuple/struct that is later destructured, an `Ok(..)`/`Some(..)` wrapper unwrapped by
+    `?`), and every other use of any of them: (aliases, [(site, how, local)])."""
     du = defuse(f)
     aliases = {start}
     work = [start]
@@ -109,6 +110,50 @@ def move_chain(f, start):
                     aliases.add(t)
                     work.append(t)
                 continue
+            # moved into a field of a tuple / plain struct / Ok / Some: follow the reads of that field
+            if not site.is_term and how == "rv" and n["rv"]["k"] == "agg" and n["rv"].get("ak") in ("tuple", "adt") \
+                    and not n["lhs"].get("p") and _depth < 4:
+                idxs = [i for i, o_ in enumerate(n["rv"]["fields"]) if op_local(o_) == l and "mv" in o_]
+                if len(idxs) == 1:
+                    al2, ot2 = move_chain(f, n["lhs"]["l"], _depth + 1)
+                    escaped = False
+                    for s2, h2, l2 in ot2:
+                        n2 = s2.node
+                        if not s2.is_term and h2 == "rv" and n2["rv"]["k"] == "use":
+                            p2 = op_place(n2["rv"]["op"])
+                            pr = [e for e in (p2.get("p") or []) if e != "deref" and not (isinstance(e, dict) and "dc" in e)]
+                            if p2 is not None and p2["l"] == l2 and len(pr) == 1 and isinstance(pr[0], dict) and "f" in pr[0]:
+                                if pr[0]["f"] == idxs[0]:
+                                    if "mv" in n2["rv"]["op"] and not n2["lhs"].get("p"):
+                                        t = n2["lhs"]["l"]
+                                        if t not in aliases:
+                                            aliases.add(t)
+                                            work.append(t)
+                                    else:
+                                        other.append((s2, h2, l2))
+                                continue            # a read of a sibling field does not touch our value
+                        if s2.is_term and n2["k"] == "call" and callee_orig(n2) == "core::ops::try_trait::Try::branch" \
+                                and not n2["dest"].get("p"):
+                            # `?` on the wrapper: the payload comes back out of the ControlFlow
+                            al3, ot3 = move_chain(f, n2["dest"]["l"], _depth + 1)
+                            for s3, h3, l3 in ot3:
+                                n3 = s3.node
+                                if not s3.is_term and h3 == "rv" and n3["rv"]["k"] == "use":
+                                    p3 = op_place(n3["rv"]["op"])
+                                    pr3 = p3.get("p") or []
+                                    if len(pr3) == 2 and isinstance(pr3[0], dict) and pr3[0].get("dc") == "Continue":
+                                        t = n3["lhs"]["l"]
+                                        if "mv" in n3["rv"]["op"] and t not in aliases:
+                                            # the payload is the wrapper's field again (a struct or the value itself)
+                                            sub_al, sub_ot = move_chain(f, t, _depth + 1)
+                                            ot2 = ot2 + [x for x in sub_ot]
+                                        continue
+                                    if len(pr3) == 2 and isinstance(pr3[0], dict) and pr3[0].get("dc") == "Break":
+                                        continue
+                            continue
+                        escaped = True
+                        other.append((s2, h2, l2))
+                    continue
             other.append((site, how, l))
     return aliases, other
 
